@@ -187,15 +187,17 @@ def saveto (decl : Bool) (root : Str) : List (Str × Bool) → List Cells → Op
 def entitiesNs : Str × Str := (S "entities", S "http://www.opendatakit.org/xforms/entities")
 def versionAttr : String := "entities:entities-version"
 
-/-- the generated `meta` group: `audit` (if the sheet has an audit row), `instanceID` (unless omitted by the
-    setting), `instanceName` (if the setting is given), and the entity declaration as the last child -/
-def metaKids (audit omitInstanceID instanceName entity : Bool) : List Str :=
-  (if audit then [S "audit"] else []) ++ (if omitInstanceID then [] else [S "instanceID"]) ++
+/-- the generated `meta` group: one `audit` child per enabled audit row of the sheet (a converted form has at most
+    one: two clash in the meta group's validation, `Pyxv.C02.at_most_one_audit`), `instanceID` (unless omitted by
+    the setting), `instanceName` (if the setting is given), and the entity declaration as the last child -/
+def metaKids (audit : Nat) (omitInstanceID instanceName entity : Bool) : List Str :=
+  List.replicate audit (S "audit") ++ (if omitInstanceID then [] else [S "instanceID"]) ++
   (if instanceName then [S "instanceName"] else []) ++ (if entity then [S "entity"] else [])
 
 /-- the three facts about sheet and settings that shape the meta block -/
 structure MetaCfg where
-  audit : Bool
+  /-- number of enabled audit rows -/
+  audit : Nat
   omitInstanceID : Bool
   instanceName : Bool
 deriving Repr, DecidableEq
